@@ -1,11 +1,12 @@
 use std::borrow::Cow;
 use std::collections::HashMap;
+use std::fmt::{self, Debug, Formatter};
 
 use percent_encoding::{percent_decode_str, utf8_percent_encode, NON_ALPHANUMERIC};
 
 use crate::error::Error;
 
-#[derive(Clone, Debug, Default, PartialEq, Eq)]
+#[derive(Clone, Default, PartialEq, Eq)]
 /// Parsed representation of database connection URI
 pub struct Options<'a> {
     /// The URI schema
@@ -22,6 +23,37 @@ pub struct Options<'a> {
     pub query: HashMap<String, String>,
     /// The fragment component
     pub fragment: Cow<'a, str>,
+}
+
+// The password and the values of the query parameters (which may carry
+// credentials such as `admin_password`) are never printed.
+impl Debug for Options<'_> {
+    fn fmt(&self, f: &mut Formatter<'_>) -> fmt::Result {
+        struct Keys<'k>(&'k HashMap<String, String>);
+
+        impl Debug for Keys<'_> {
+            fn fmt(&self, f: &mut Formatter<'_>) -> fmt::Result {
+                f.debug_set().entries(self.0.keys()).finish()
+            }
+        }
+
+        f.debug_struct("Options")
+            .field("scheme", &self.scheme)
+            .field("user", &self.user)
+            .field(
+                "password",
+                &if self.password.is_empty() {
+                    ""
+                } else {
+                    "<secret>"
+                },
+            )
+            .field("host", &self.host)
+            .field("path", &self.path)
+            .field("query", &Keys(&self.query))
+            .field("fragment", &self.fragment)
+            .finish()
+    }
 }
 
 impl<'a> Options<'a> {
